@@ -184,6 +184,8 @@ def _is_literal(v: ast.AST) -> bool:
         return True
     if isinstance(v, (ast.Tuple, ast.List)) and v.elts and all(isinstance(e, ast.Constant) and isinstance(e.value, (int, float)) and not isinstance(e.value, bool) for e in v.elts):
         return True
+    if isinstance(v, (ast.Tuple, ast.List, ast.Set)) and v.elts and all(isinstance(e, ast.Attribute) and isinstance(e.value, ast.Name) and e.value.id[:1].isupper() for e in v.elts):
+        return True          # a tuple of enum members / class attributes: (FockOperationType.Displace, FockOperationType.Squeeze)
     return False
 
 
@@ -236,6 +238,15 @@ class Inliner:
             name = f.id
             t = self.repo.funcs.get(f"{fi.module.name.split('.')[-1]}:{name}")
             target = t if t is not None and t.cls is None and t.module is fi.module else None
+            if target is None:
+                # a parameterless closure defined inside the calling function and bound once: `def holding(): return [...]`
+                own = getattr(fi, "orig", None) or fi.node
+                nested = [x for x in ast.walk(own) if isinstance(x, ast.FunctionDef) and x is not own and x.name == name]
+                rebound = [x for x in ast.walk(own) if isinstance(x, ast.Name) and x.id == name and isinstance(x.ctx, ast.Store)]
+                if len(nested) == 1 and not rebound and not (nested[0].args.args or nested[0].args.vararg or nested[0].args.kwarg or nested[0].args.kwonlyargs) \
+                        and not call.args and not call.keywords \
+                        and not any(isinstance(x, (ast.Yield, ast.YieldFrom, ast.Await, ast.Global, ast.Nonlocal)) for x in ast.walk(nested[0])):
+                    return nested[0]
         if name is None or target is None:
             return None
         if not name.startswith("_") or name.startswith("__") or name in KNOWN_PRIVATE:
@@ -504,7 +515,8 @@ class Inliner:
             src_has_private = any(isinstance(x, ast.Call) and (
                 (isinstance(x.func, ast.Attribute) and x.func.attr.startswith("_") and not x.func.attr.startswith("__") and x.func.attr not in KNOWN_PRIVATE)
                 or (isinstance(x.func, ast.Name) and x.func.id.startswith("_") and not x.func.id.startswith("__") and x.func.id not in KNOWN_PRIVATE)) for x in ast.walk(fi.orig))
-            if not src_has_private:
+            has_closure = any(isinstance(x, ast.FunctionDef) and x is not fi.orig for x in ast.walk(fi.orig))
+            if not src_has_private and not has_closure:
                 continue
             new = copy.deepcopy(fi.orig)
             before = len(self.inlined)
@@ -515,8 +527,139 @@ class Inliner:
         self.repo.absorbed = self._absorbed(fis)
         for fi in fis:
             if not fi.module.relpath.startswith("examples/"):
+                self._match_to_if(fi)
+                self._unwalrus(fi)
                 self._module_constants(fi)
                 self._level_aliases(fi)
+
+    def _match_to_if(self, fi) -> None:
+        """`match len(xs): case 0: … case 1: … case _: …` over a count or a plain local is read as the if/elif/else chain it abbreviates
+        (only literal int/str patterns and a final wildcard; the subject is a name, an attribute chain or len(<name>), so evaluating it
+        per test changes nothing).  `match self` / `match self.expansion_level` dispatches are left alone: the rules read them as they are."""
+        fn = fi.node
+
+        def eligible(m: ast.Match) -> bool:
+            sub = m.subject
+            simple = _is_simple(sub) or (isinstance(sub, ast.Call) and isinstance(sub.func, ast.Name) and sub.func.id == "len" and len(sub.args) == 1 and _is_simple(sub.args[0]))
+            if not simple or ast.unparse(sub) in ("self", "self.expansion_level") or ast.unparse(sub).endswith(".expansion_level"):
+                return False
+            for i, c in enumerate(m.cases):
+                if c.guard is not None:
+                    return False
+                pt = c.pattern
+                if isinstance(pt, ast.MatchValue) and isinstance(pt.value, ast.Constant) and isinstance(pt.value.value, (int, str)):
+                    continue
+                if isinstance(pt, ast.MatchAs) and pt.pattern is None and pt.name is None and i == len(m.cases) - 1:
+                    continue
+                return False
+            return True
+        if not any(isinstance(x, ast.Match) and eligible(x) for x in ast.walk(fn)):
+            return
+        new = copy.deepcopy(fn) if fn is getattr(fi, "orig", None) else fn
+
+        def block(stmts):
+            out = []
+            for st in stmts:
+                for fld in ("body", "orelse", "finalbody"):
+                    sub = getattr(st, fld, None)
+                    if isinstance(sub, list) and sub and isinstance(sub[0], ast.stmt) and not isinstance(st, (ast.FunctionDef, ast.ClassDef)):
+                        setattr(st, fld, block(sub))
+                if isinstance(st, ast.Match):
+                    for c in st.cases:
+                        c.body = block(c.body)
+                if isinstance(st, ast.Try):
+                    for h in st.handlers:
+                        h.body = block(h.body)
+                if isinstance(st, ast.Match) and eligible(st):
+                    chain = None
+                    for c in reversed(st.cases):
+                        if isinstance(c.pattern, ast.MatchAs):
+                            chain = list(c.body)
+                        else:
+                            test = ast.Compare(left=copy.deepcopy(st.subject), ops=[ast.Eq()], comparators=[copy.deepcopy(c.pattern.value)])
+                            node = ast.If(test=test, body=list(c.body), orelse=chain if isinstance(chain, list) else ([] if chain is None else [chain]))
+                            chain = ast.copy_location(node, c.body[0] if c.body else st)
+                    if isinstance(chain, list):
+                        out += chain
+                    elif chain is not None:
+                        out.append(chain)
+                    continue
+                out.append(st)
+            return out
+        new.body = block(new.body)
+        ast.fix_missing_locations(new)
+        fi.node = new
+
+    def _unwalrus(self, fi) -> None:
+        """`if (n := len(states)) == 2:` is read as `n = len(states)` followed by `if n == 2:` – only for assignment expressions that
+        are evaluated unconditionally by their statement (not on the right of and/or, not inside a conditional expression,
+        comprehension or lambda, not in a loop header); any other use leaves the function as written"""
+        fn = fi.node
+        if not any(isinstance(x, ast.NamedExpr) for x in ast.walk(fn)):
+            return
+        new = copy.deepcopy(fn) if fn is getattr(fi, "orig", None) else fn
+
+        def unconditional(stmt_exprs, target) -> bool:
+            # walk down from the statement's own expressions; stop at constructs that evaluate their children conditionally
+            def visit(e, cond):
+                if e is target:
+                    return not cond
+                if isinstance(e, ast.BoolOp):
+                    return any(visit(v, cond or i > 0) for i, v in enumerate(e.values))
+                if isinstance(e, ast.IfExp):
+                    return visit(e.test, cond) or visit(e.body, True) or visit(e.orelse, True)
+                if isinstance(e, (ast.Lambda, ast.ListComp, ast.SetComp, ast.DictComp, ast.GeneratorExp)):
+                    return any(visit(c, True) for c in ast.iter_child_nodes(e))
+                if isinstance(e, ast.Compare) and len(e.ops) > 1:
+                    return visit(e.left, cond) or any(visit(c, cond or i > 0) for i, c in enumerate(e.comparators))
+                return any(visit(c, cond) for c in ast.iter_child_nodes(e) if isinstance(c, (ast.expr, ast.keyword, ast.Starred)))
+            return any(visit(e, False) for e in stmt_exprs)
+
+        def own_exprs(st):
+            if isinstance(st, ast.If):
+                return [st.test]
+            if isinstance(st, (ast.Assign, ast.AugAssign, ast.AnnAssign, ast.Return, ast.Expr)) and getattr(st, "value", None) is not None:
+                return [st.value]
+            if isinstance(st, ast.Assert):
+                return [st.test]
+            return []
+
+        changed = [False]
+
+        def block(stmts):
+            out = []
+            for st in stmts:
+                exprs = own_exprs(st)
+                ws = [w for e in exprs for w in ast.walk(e) if isinstance(w, ast.NamedExpr)]
+                if ws and all(isinstance(w.target, ast.Name) and unconditional(exprs, w) for w in ws):
+                    # innermost first = evaluation order for nested assignment expressions
+                    for w in sorted(ws, key=lambda w: (-sum(1 for _ in ast.walk(w)),), reverse=True):
+                        out.append(ast.copy_location(ast.Assign(targets=[ast.Name(id=w.target.id, ctx=ast.Store())], value=w.value), st))
+
+                    class _W(ast.NodeTransformer):
+                        def visit_NamedExpr(self, n):
+                            self.generic_visit(n)
+                            return ast.copy_location(ast.Name(id=n.target.id, ctx=ast.Load()), n)
+                    for fld in ("test", "value"):
+                        if getattr(st, fld, None) is not None and isinstance(getattr(st, fld), ast.expr):
+                            setattr(st, fld, _W().visit(getattr(st, fld)))
+                    changed[0] = True
+                for fld in ("body", "orelse", "finalbody"):
+                    sub = getattr(st, fld, None)
+                    if isinstance(sub, list) and sub and isinstance(sub[0], ast.stmt) and not isinstance(st, (ast.FunctionDef, ast.ClassDef)):
+                        setattr(st, fld, block(sub))
+                if isinstance(st, ast.Match):
+                    for c in st.cases:
+                        c.body = block(c.body)
+                if isinstance(st, ast.Try):
+                    for h in st.handlers:
+                        h.body = block(h.body)
+                out.append(st)
+            return out
+        new.body = block(new.body)
+        if changed[0]:
+            ast.fix_missing_locations(new)
+            fi.node = new
 
     def _module_constants(self, fi) -> None:
         """a literal that was given a module-level name (`_EINSUM_OP_FIRST = "ea,abcd,fb->efcd"`, `_PAIR_AXES = (0, 2, 1, 3)`) is read as
